@@ -199,4 +199,59 @@ theorem cli_gnp (a p : Arg) (nx : List NxDraw) (e : Option CG) (fuel : Nat) (ds 
             cases h
             exact ⟨n, pn, pd, S, rest', rfl, rfl, hg, rfl, rfl, hs⟩
 
+theorem gndGuard_nat {n d : Int} (h : gndGuard n d = true) (ho : gndOdd n d = false) :
+    0 < d ∧ d < n ∧ (n.toNat * d.toNat) % 2 = 0 ∧ nxRegularPre d n = true := by
+  simp only [gndGuard, Bool.and_eq_true, decide_eq_true_eq] at h
+  simp only [gndOdd, beq_eq_false_iff_ne, ne_eq] at ho
+  obtain ⟨⟨h1, h2⟩, h3⟩ := h
+  obtain ⟨N, rfl⟩ : ∃ N : Nat, n = (N : Int) := ⟨n.toNat, by omega⟩
+  obtain ⟨D, rfl⟩ : ∃ D : Nat, d = (D : Int) := ⟨d.toNat, by omega⟩
+  have hcast : ((N : Int) * (D : Int)) = ((N * D : Nat) : Int) := by rw [Int.natCast_mul]
+  rw [hcast] at ho
+  refine ⟨h2, h3, ?_, ?_⟩
+  · simp only [Int.toNat_natCast]; omega
+  · simp only [nxRegularPre, Bool.and_eq_true, beq_iff_eq, decide_eq_true_eq]
+    rw [hcast]; omega
+
+/-- `gnd N d` on the command line, for EVERY pair of tokens and EVERY list of shuffles networkx asks
+for: a run that returns has `N > d > 0`, `N·d` even, consumed none of cnfgen's own draws, and returns a
+`d`-REGULAR graph object on `N` vertices (every neighbour row has `d` entries) with `N·d/2` edges
+satisfying the invariant of C16; an exception is `ValueError`; no `NetworkXError` escapes -/
+theorem cli_gnd (a b : Arg) (nx : List NxDraw) (e : Option CG) (fuel : Nat) (ds : List Draw) :
+    (∀ G rest, constructNx .gnd [a, b] nx e fuel ds = .ok G rest →
+      ∃ n d S, a.int? = some n ∧ b.int? = some d ∧ 0 < d ∧ d < n ∧ rest = ds ∧ G = .simple S ∧
+        S.n = n.toNat ∧ SimpleG.Inv S ∧ (∀ v : Nat, 1 ≤ v → v ≤ n.toNat → (S.nbrs v).length = d.toNat) ∧
+        2 * S.m = n.toNat * d.toNat) ∧
+    (∀ x, constructNx .gnd [a, b] nx e fuel ds = .exc x → x = .valueError) ∧
+    constructNx .gnd [a, b] nx e fuel ds ≠ .foreign := by
+  have hc : constructNx .gnd [a, b] nx e fuel ds = obtainGnd [a, b] (nxExt .gnd [a, b] nx) ds := rfl
+  rw [hc]
+  simp only [obtainGnd, bind_apply, argInt_apply, guard_apply, nxExt]
+  cases ha : a.int? with
+  | none => simp
+  | some n =>
+    cases hb : b.int? with
+    | none => simp
+    | some d =>
+      simp only
+      cases hg : gndGuard n d with
+      | false => simp
+      | true =>
+        simp only [↓reduceIte]
+        cases ho : gndOdd n d with
+        | true => simp [valueError_apply]
+        | false =>
+          obtain ⟨g1, g2, g3, g4⟩ := gndGuard_nat hg ho
+          simp only [Bool.false_eq_true, ↓reduceIte, g4, Bool.not_true, ext_apply]
+          cases hs : gndSimple n.toNat d.toNat nx with
+          | stuck => simp
+          | ok r rest' =>
+            obtain ⟨S, s1, s2, s3, s4, s5, _⟩ := gnd_spec n.toNat d.toNat g3 (by omega) nx r rest' hs
+            subst s1
+            simp only [simpleOf]
+            refine ⟨?_, (by intro x h; cases h), (by intro h; cases h)⟩
+            intro G rest h
+            cases h
+            exact ⟨n, d, S, rfl, rfl, g1, g2, rfl, rfl, s2, s3, fun v h1 h2 => (s4 v h1 h2).1, s5⟩
+
 end Cnfgen.C15
